@@ -92,6 +92,9 @@ func (in *Interp) builtin(g *G, fr *Frame, b *ssa.Builtin, args []Value, call *s
 			if x.R == nil {
 				return mkInt(0, 64)
 			}
+			if in.repCapUsed && cap(x.R.(*SliceV).S) >= repCap {
+				unsupported("cap() of a slice made with a large symbolic capacity")
+			}
 			return mkInt(uint64(cap(x.R.(*SliceV).S)), 64)
 		}
 	case "append":
@@ -110,6 +113,9 @@ func (in *Interp) builtin(g *G, fr *Frame, b *ssa.Builtin, args []Value, call *s
 			return x
 		}
 		n := len(xs) + len(ys)
+		if in.repCapUsed && n > 64 && cap(xs) >= repCap {
+			unsupported("append beyond 64 elements to a slice made with a large symbolic capacity")
+		}
 		if n <= cap(xs) {
 			out := xs[:n]
 			for i, v := range ys {
